@@ -164,7 +164,7 @@ package crlrepository
 
 //@ func Repository.updateCrlEntry
 //@   writes crlrepository.Entry.CRLStore, crlrepository.Entry.LastUpdateSignatureVerifyFailed, crlrepository.Entry.LastUpdateSignature, crlrepository.Repository.crlRepository
-//@   props C04 C08 C12 C13 C15 C16 C20
+//@   props C01 C04 C08 C09 C11 C12 C13 C15 C16 C20
 //@   requires repoOK(R) && entryShell(entry) && unheld(entry.entryLock) && unheld(R.crlRepositoryLock) && norwlocks()
 //@   requires newChains != nil ==> chainsOK(newChains)
 //@   assigns L.held, crlrepository.Entry.CRLStore, crlrepository.Entry.Loaded, crlrepository.Entry.LastUpdateSignatureVerifyFailed, crlrepository.Entry.LastUpdateSignature, crlrepository.Entry.Chains, H.crlrepository.Repository.crlRepository, M.map[string]*crlrepository.Entry, crlstore.MapStore.Map, M.map[string][]uint8, crlstore.LevelDbStore.Db, H.crlloader.MultiSchemesCRLLoader, H.crlloader.URLLoader, H.crlloader.FileLoader, X.ldbhas, X.fs, X.net, X.retry, X.stream, X.spos, X.hacc, X.hkind, E.uint8, E.any, E.string, fresh:E.*core.CertificateChainEntry, fresh:E.core.CertificateChain, fresh:E.core.CertificateChainEntry
@@ -280,3 +280,6 @@ package crlrepository
 //@   requires repoOK(R)
 //@   requires err == nil ==> info != nil
 //@   assigns X.fs
+//@   ensures[C12,C20] every_entry_of_the_work_dir_is_examined: err == nil && called(SameFile#1) && !res(SameFile#1) ==> called(Repository.deleteIfTempFileOrDir#1) && arg(Repository.deleteIfTempFileOrDir#1, 1) == path && arg(Repository.deleteIfTempFileOrDir#1, 2) == info
+//@   ensures[C12,C20] only_directories_are_skipped: r0 == filepath.SkipDir && err == nil ==> called(FileInfo.IsDir#1) && res(FileInfo.IsDir#1)
+//@   ensures[C12,C20] the_walk_is_not_aborted: r0 == nil || r0 == filepath.SkipDir || r0 == err
